@@ -97,6 +97,7 @@ void mc_exists(int slot) { if (ctl) ctl->exists_mask |= 1u << (slot & 31); }
 void mc_observe(int slot, long v) { observes[slot & 7] = v; }
 void mc_step(void) { sched_point(OP_STEP, NULL, 0); }
 int mc_self(void) { return my_tid; }
+void mc_wait_all(void) { int i; sched_point(OP_WAITALL, NULL, 0); for (i = 0; i < nthreads; i++) if (i != my_tid && T[i].used) { vc_join(T[my_tid].vc, T[i].vc); ch_note(T[i].ch); } }
 void mc_mark(void) { T[my_tid].blocked_count = 0; T[my_tid].long_waits = 0; }
 int mc_long_waits(void) { return (int)T[my_tid].long_waits; }
 int mc_in_call_blocked(void) { return (int)T[my_tid].blocked_count; }
